@@ -30,6 +30,38 @@ check("C14", "other",
       "AST effect classification of map-range loops + comparator totality; SSA def-use of the option value; CFG evaluation of the helper under option=false; constant-format verb position analysis",
       "DESIGN.md section 3 (E3, E5), section 4 (C14)")
 
+_GRAPH_NOTE = "Sufficient-condition prover / necessary-condition checker: value logic of the weight and wildcard algorithms is not decided. Trusted: Go map iteration is the only unordered source besides the enumerated gonum iterators and entropy functions; library tables in /verif/sa/internal/e2own and e3order."
+
+check("C05", "other",
+      "Schedule and error-discipline clauses decided statically: the verdict of Build cannot depend on map order, iterator order, caller order of type definitions or entropy (every loop over such a source reachable from Build is classified by effect forms; exceptions are keyed by effect signature); every error origin wraps ErrModelCycle/ErrTupleCycle/ErrInvalidModel with %w (one record per origin site with a floor, so a deleted rejection site is noticed); no callee error is dropped.",
+      _GRAPH_NOTE + " The iff between 'error' and 'not well-founded' for a fixed order is NOT decided.",
+      "AST effect classification of order-source loops in call-graph-reachable code; SSA backward slice of error results to sentinel origins; error-propagation def-use",
+      "DESIGN.md section 3 (E3, E5), section 4 (C05)")
+
+check("C06", "other",
+      "Necessary conditions decided statically for everything reachable from Build: no order-sensitive loop over a map / gonum iterator / caller-ordered type list (loop-carried reads included), no entropy in an ordering comparison, type definitions visited on a sorted private copy, no package-level state and no builder-receiver state, no wildcard/condition slice shared between owners while appends are reachable.",
+      _GRAPH_NOTE + " Commutativity of the numeric rules under operand reordering is NOT decided.",
+      "AST effect classification + comparator totality; SSA entropy taint (value/key marks, field-based); package-state and receiver-state write scan; slice-origin analysis for shared backing arrays",
+      "DESIGN.md section 3 (E3, E2), section 4 (C06)")
+
+check("C10", "other",
+      "Structural necessary conditions decided statically: all rewrite and restriction variants are translated; the edge-kind, node-kind and operator-label constants reaching the constructors in each translation step equal the documented table and the sibling plain builder; exclusion children are (base, subtract); operator labels contain a random id made in the same invocation; translation loops run to completion unless they fail; the empty condition is normalised before comparison; Build does not write its model argument (may-point-to).",
+      _GRAPH_NOTE + " One-to-one correspondence of graph and rewrite as a whole is NOT decided.",
+      "constant-propagation tables over SSA call arguments compared between sibling implementations and a documented table; may-point-to purity analysis; AST loop-exit rule",
+      "DESIGN.md section 3 (E1, E2), section 4 (C10)")
+
+check("C11", "other",
+      "Necessary conditions decided statically: the schedule clause as for C05/C06; no wildcard slice is stored into a node/edge while still held by another owner when appends are reachable (slice-origin analysis: fresh, clone, append-to-own, or finding); every append to a wildcards list is dominated by !slices.Contains on the same list and element.",
+      _GRAPH_NOTE + " Equality of the lists with reachability of public types is NOT decided.",
+      "SSA slice-origin analysis with interprocedural parameter resolution; dominator-based guard check; AST effect classification of order-source loops",
+      "DESIGN.md section 3 (E2, E3), section 4 (C11)")
+
+check("C17", "other",
+      "Structural necessary conditions decided statically for the plain graph: all rewrite/restriction variants translated with the documented edge/node kinds (equal to the sibling builder); operator labels fresh per occurrence; translation loops complete; Reversed forwards every edge field, flips endpoints and direction; no order-sensitive loop over gonum's map-backed iterators or Go maps, iterator-materialised slices sorted by a total comparator, ULIDs never reach DOT attributes or ordering comparisons, sorted private copy of types; PathExists returns the library reachability query on the looked-up nodes; no argument or package-state writes.",
+      _GRAPH_NOTE + " Path duality and cycle classification (gonum algorithms on run-time graphs) are NOT decided.",
+      "AST effect classification of iterator/map loops; SSA entropy taint with DOT-attribute sinks; struct-field coverage of Reversed; may-point-to purity; sibling constant tables",
+      "DESIGN.md section 3 (E1, E2, E3), section 4 (C17)")
+
 _PENDING = "static check not built yet in this round; see DESIGN.md section 4 for the planned clauses"
 for _p in ["C01","C02","C03","C05","C06","C07","C08","C09","C10","C11","C12","C13","C14","C15","C16","C17","C18"]:
     if _p not in CHECKS:
